@@ -54,6 +54,8 @@ type Model struct {
 	Regions map[uint64]*Region
 	NumKeys int
 	nextID  uint64
+	// DownSeconds, when set, tells for how long a store has been unreachable (reported in down-peer statistics)
+	DownSeconds func(store uint64) uint64
 	// History of every heartbeat ever built (for stale / duplicate re-sends)
 	Sent []*pdpb.RegionHeartbeatRequest
 }
@@ -173,7 +175,11 @@ func (m *Model) Heartbeat(r *Region) *pdpb.RegionHeartbeatRequest {
 			hb.PendingPeers = append(hb.PendingPeers, &metapb.Peer{Id: p.ID, StoreId: p.StoreID, Role: p.Role})
 		}
 		if st := m.Stores[p.StoreID]; st != nil && !st.Up && p.ID != r.Leader {
-			hb.DownPeers = append(hb.DownPeers, &pdpb.PeerStats{Peer: &metapb.Peer{Id: p.ID, StoreId: p.StoreID, Role: p.Role}, DownSeconds: 600})
+			secs := uint64(600)
+			if m.DownSeconds != nil {
+				secs = m.DownSeconds(p.StoreID)
+			}
+			hb.DownPeers = append(hb.DownPeers, &pdpb.PeerStats{Peer: &metapb.Peer{Id: p.ID, StoreId: p.StoreID, Role: p.Role}, DownSeconds: secs})
 		}
 	}
 	r.LastHB = hb
